@@ -22,7 +22,7 @@ pub const PROPS: &[PropSpec] = &[
         rule: "non-trivial: two dispatches from different threads were ordered by real time (one returned before the other was invoked) or by program order, and both were reduced" },
     PropSpec { id: "C03", families: &[("core", 5), ("mw", 3), ("sub", 3)], borrowed: &[], quick_runs: 240_000,
         rule: "non-trivial: a whole-run direct subscriber existed and the history contains both notifying and non-notifying (Keep or suppressed) actions" },
-    PropSpec { id: "C04", families: &[("stop", 10)], borrowed: &[], quick_runs: 240_000,
+    PropSpec { id: "C04", families: &[("stop", 9), ("sub", 1)], borrowed: &[], quick_runs: 240_000,
         rule: "non-trivial: a dispatch call overlapped stop() in time, or the queue held a backlog >= 1 when stop() was invoked" },
     PropSpec { id: "C05", families: &[("bp", 7), ("stop", 3)], borrowed: &[], quick_runs: 160_000,
         rule: "non-trivial: a dispatch blocked on the full dispatch queue (seam event Block on ChanSend of the store's queue) under BlockOnFull" },
@@ -40,7 +40,7 @@ pub const PROPS: &[PropSpec] = &[
         rule: "non-trivial: >=1 effect ran while the reducer thread was inside a later pipeline, or stop() was invoked with effects outstanding" },
     PropSpec { id: "C12", families: &[("mw", 10)], borrowed: &[("C01", "mw"), ("C03", "mw"), ("C07", "mw"), ("C11", "mw")], quick_runs: 240_000,
         rule: "non-trivial: some hook returned a verdict other than Continue" },
-    PropSpec { id: "C13", families: &[("api", 6), ("eff", 2), ("sub", 1), ("stop", 1)], borrowed: &[], quick_runs: 240_000,
+    PropSpec { id: "C13", families: &[("api", 5), ("eff", 2), ("sub", 1), ("stop", 1), ("two", 1)], borrowed: &[], quick_runs: 240_000,
         rule: "non-trivial: >=2 client threads had public API calls overlapping in time, one of them a shutdown, subscription or iterator operation" },
     PropSpec { id: "C14", families: &[("sub", 10)], borrowed: &[], quick_runs: 240_000,
         rule: "non-trivial: an iterator yielded >=1 item and its consumer overlapped a producer or stop()" },
@@ -48,11 +48,11 @@ pub const PROPS: &[PropSpec] = &[
         rule: "non-trivial: a DroppableStore was dropped while a dispatch overlapped the drop or with backlog >= 1" },
     PropSpec { id: "C16", families: &[("sub", 5), ("core", 3), ("two", 2)], borrowed: &[], quick_runs: 240_000,
         rule: "non-trivial: a selector subscriber saw >=2 notifications of which at least one repeated the previous selected value" },
-    PropSpec { id: "C17", families: &[("build", 10)], borrowed: &[("C01", "build"), ("C05", "build"), ("C06", "build"), ("C07", "build")], quick_runs: 240_000,
+    PropSpec { id: "C17", families: &[("build", 9), ("two", 1)], borrowed: &[("C01", "build"), ("C05", "build"), ("C06", "build"), ("C07", "build"), ("C05", "two"), ("C06", "two")], quick_runs: 240_000,
         rule: "non-trivial: a builder call sequence in which some option was set more than once or an add_* followed a with_*" },
     PropSpec { id: "C18", families: &[("core", 3), ("bp", 3), ("mw", 2), ("eff", 2)], borrowed: &[], quick_runs: 240_000,
         rule: "non-trivial: the balance equations were evaluated after a clean stop with >=1 dropped, vetoed, rejected or effect-bearing action" },
-    PropSpec { id: "C19", families: &[("two", 10)], borrowed: &[("C01", "two"), ("C03", "two"), ("C04", "two"), ("C18", "two"), ("C08", "two"), ("C16", "two"), ("C09", "two"), ("C10", "two"), ("C05", "two"), ("C06", "two")], quick_runs: 160_000,
+    PropSpec { id: "C19", families: &[("two", 10)], borrowed: &[("C01", "two"), ("C03", "two"), ("C04", "two"), ("C18", "two"), ("C08", "two"), ("C16", "two"), ("C09", "two"), ("C10", "two"), ("C05", "two"), ("C06", "two"), ("C11", "two")], quick_runs: 160_000,
         rule: "non-trivial: operations on the two stores overlapped in time and one store was stopped or dropped while the other still had work" },
 ];
 
